@@ -167,7 +167,9 @@ class MTDriver(driver.Driver):
         for name, tdef in schd.config.taskdefs.items():
             fut[name] = instrument._interval_int(tdef.max_future_prereq_offset) or 0
         rb = getattr(schd.pool, "_prev_runahead_base_point", None)
-        return {"pool": pool, "rhl": sp["rhlimit"], "rhbase": TR.pt(rb) if rb is not None else None, "q": sp["queues"], "cmds": sorted(cmds), "acks": sorted(acks),
+        stop = sp["stop_point"]
+        return {"tohold": sorted(sp["tasks_to_hold"]), "holdpt": sp["hold_point"], "stop": stop,
+                "pool": pool, "rhl": sp["rhlimit"], "rhbase": TR.pt(rb) if rb is not None else None, "q": sp["queues"], "cmds": sorted(cmds), "acks": sorted(acks),
                 "jobs": jobs, "net": net, "stopped": self.stopped, "futseen": fut,
                 "maxfut": instrument._interval_int(schd.pool.max_future_offset) or 0}
 
@@ -211,6 +213,28 @@ class MTDriver(driver.Driver):
         while self.inflight:
             key, _m = self.inflight.pop(0)
             self.boundary("Deliver", self._jid(key))
+
+    # ---- operator commands (executed by process_command_queue)
+    def on_cmd_done(self, name, args):
+        ids = []
+        for tk in args.get("tasks") or []:
+            try:
+                p_, n_ = tk.split("/")
+                ids.append([n_, int(p_)])
+            except ValueError:
+                pass
+        if name == "hold" and len(ids) == 1:
+            self.boundary("CmdHold", ids[0])
+        elif name == "release" and len(ids) == 1:
+            self.boundary("CmdRelease", ids[0])
+        elif name == "set_hold_point":
+            self.boundary("CmdHoldPoint", int(args["point"]))
+        elif name == "release_hold_point":
+            self.boundary("CmdReleaseHoldPoint")
+        elif name == "stop" and args.get("cycle_point") is not None:
+            self.boundary("CmdStopPoint", int(args["cycle_point"]))
+        else:
+            self.boundary("CmdOther:" + name)
 
     # ---- environment actions, one model step each
     def exec_submit(self, cmd):
@@ -269,12 +293,35 @@ class MTDriver(driver.Driver):
         return r
 
 
-def one_mt_run(w, outcome_seed, env_seed, home):
-    """One plain execution of workflow w; returns the list of logged model steps (or raises)."""
+def command_plan(w, rng, n_iters=12):
+    """A few single-target operator commands at random iterations (the ones the design model has)."""
+    cl = []
+    for _ in range(rng.randint(1, 4)):
+        it = rng.randint(1, n_iters)
+        one = [f"{rng.randint(w.icp, w.fcp)}/{rng.choice(w.tasks)}"]
+        r = rng.random()
+        if r < 0.3:
+            cl.append((it, "hold", {"tasks": one}))
+            if rng.random() < 0.6:
+                cl.append((it + rng.randint(1, 6), "release", {"tasks": one}))
+        elif r < 0.45:
+            cl.append((it, "release", {"tasks": one}))
+        elif r < 0.65:
+            cl.append((it, "set_hold_point", {"point": str(rng.randint(w.icp, w.fcp))}))
+            if rng.random() < 0.7:
+                cl.append((it + rng.randint(1, 8), "release_hold_point", {}))
+        elif r < 0.75:
+            cl.append((it, "release_hold_point", {}))
+        else:
+            cl.append((it, "stop", {"mode": None, "cycle_point": str(rng.randint(w.icp, w.fcp))}))
+    return {"cmds": cl}
+
+def one_mt_run(w, outcome_seed, env_seed, home, mode="complete_novanish", plan=None):
+    """One execution of workflow w (plain, or with operator commands); returns the list of logged model steps."""
     global CUR
-    outcome = gen.make_outcome(w, random.Random(outcome_seed), "complete_novanish")
+    outcome = gen.make_outcome(w, random.Random(outcome_seed), mode)
     try:
-        res = driver.execute(w.flow_text(), outcome, env_seed, home, driver_cls=MTDriver)
+        res = driver.execute(w.flow_text(), outcome, env_seed, home, driver_cls=MTDriver, plan=plan)
     finally:
         CUR = None
     drv = res.driver
